@@ -115,6 +115,18 @@ ODD = [
     "INSERT INTO Odd_ VALUES (1, 'a', 'b', 1.5, TRUE, 7);",
     "CREATE TABLE M (MC M); INSERT INTO M VALUES (1);",
     "CREATE TABLE Odd_ (a INTEGER); CREATE TABLE Odd2_ (b INTEGER); CREATE ROP REF_ID R1 FROM M Odd_ (a) TO MC Odd2_ (b);",
+    # (appended later: replays name these texts by index)
+    "CREATE TABLE Odd_ (Id INTEGER, Nm STRING); INSERT INTO Odd_ (Id, Nm) VALUES (1);",
+    "CREATE TABLE Odd_ (Id INTEGER); INSERT INTO Odd_ (Id) VALUES ();",
+    "CREATE TABLE Odd_ (a INTEGER); INSERT INTO Odd_ VALUES ('x');",
+    "CREATE TABLE Odd_ (a INTEGER); INSERT INTO Odd_ VALUES (FALSE);",
+    "CREATE TABLE Odd_ (a REAL); INSERT INTO Odd_ VALUES ('1.5');",
+    "CREATE TABLE Odd_ (a UNIQUE_ID); INSERT INTO Odd_ VALUES (\"zz\");",
+    "CREATE TABLE Odd_ (a UNIQUE_ID); INSERT INTO Odd_ VALUES ('00000000-0000-0000-0000-000000000001');",
+    "CREATE TABLE Odd_ (a INTEGER); CREATE TABLE Odd2_ (b INTEGER); CREATE ROP REF_ID R1 FROM MC Odd_ (nope) TO 1 Odd2_ (b); "
+    "INSERT INTO Odd_ VALUES (1); INSERT INTO Odd2_ VALUES (1);",
+    "CREATE TABLE Odd_ (a INTEGER); CREATE TABLE Odd2_ (b INTEGER); CREATE ROP REF_ID R1 FROM MC Odd_ (a) TO 1 Odd2_ (nope); "
+    "INSERT INTO Odd_ VALUES (1); INSERT INTO Odd2_ VALUES (1);",
 ]
 REDOS_OPEN = ["'", '"', '--', "INSERT INTO X VALUES ('", 'INSERT INTO X VALUES ("', 'INSERT INTO X VALUES (1.', 'CREATE ROP REF_ID R',
               'INSERT INTO X VALUES (-', "CREATE TABLE X (A STRING); INSERT INTO X VALUES ('"]
